@@ -233,9 +233,14 @@ def run_subspace(args):
             if len(res["samples"]) < 2:
                 res["samples"].append(dict(subspace=sp, choices=list(e.choice_log),
                                            model=e.model_values(),
-                                           path_condition=[str(a) for a in e.solver.assertions()][:12]))
+                                           path_condition=[a.sexpr()[:300] for a in list(e.solver.assertions())[:12]]))
 
-        eng.on_path_end = on_end
+        def on_end_all(e):
+            on_end(e)
+            if "on_end" in e.user:
+                e.user["on_end"](e)
+
+        eng.on_path_end = on_end_all
         with models.installed(extra=extra):
             ok = eng.explore(harness, validate if getattr(mod, "VALIDATE", True) else None,
                              deadline=deadline)
